@@ -168,8 +168,10 @@ CLAIMED["C20"] = {
             "loop is Euclidean division; the upper-boundary descent never fails and terminates; the value enclosed by each of the four descents is within one deepest piece of its target (below "
             "in strict mode, above in non-strict mode); and the MASS BRACKET of the whole selection (selection_mass_bracket): for every dyadic map, every from <= to <= total and every option "
             "combination, the enclosed value differs from (to - from) by at most one boundary piece per threshold, never above in strict mode, never below in non-strict mode — whenever the two "
-            "thresholds are not strictly inside the same cell; a proved counterexample shows that hypothesis is necessary (= the open finding). The mass bracket and 'only cells of the map' are "
-            "also evaluated with exact integers on the implementation's output. One defect repaired (acc not advanced past the split lower boundary cell).",
+            "thresholds are not strictly inside the same cell; a proved counterexample shows that hypothesis is necessary (= the open finding). Also for every map, thresholds and options: "
+            "selection_footprint (every selected cell is a cell of the map or one of its descendants), scan_order (the scan list is a permutation of the map ordered by density as requested), "
+            "selection_contains_between (a non-null cell whose cumulative interval lies within [from, to] is selected), selection_moc (the output is canonical and covers exactly the selected cells). "
+            "The mass bracket and the footprint are also evaluated with exact integers on the implementation's output. One defect repaired (acc not advanced past the split lower boundary cell).",
     "design_ref": "DESIGN.md §4 C20, §10",
     "note": TB + "; exactness of f64 arithmetic on dyadic inputs",
     "technique": "Lean 4 proof (loop lemmas, descent mass lemmas by induction on the depth, two-stage bracket theorem) + differential correspondence + exact-integer property check on implementation output",
